@@ -205,14 +205,17 @@ CLAIMED.update({
              "fresh allocation disjoint; (6) collections (Model/Coll, coll_compile_correct): for every growth policy of append and every iteration order "
              "of map ranges, every accepted program over maps (insert, delete, two-result lookup, len, range) and slices (append, copy, capacities, "
              "subslices, range) returns the related value and heap; maps are references, absent keys read zero, append aliases exactly when the "
-             "capacity suffices, commutatively accumulating range bodies are order-independent. Tied to the code by regenerated canonical text and tables (rfl), by "
+             "capacity suffices, commutatively accumulating range bodies are order-independent; (7) functions (Model/Fun, fun_compile_correct): for every "
+             "accepted package of functions with 0-3 results, recursion, closures, value/pointer-receiver methods and strings, every call with related "
+             "arguments returns the related results (multiple results positional, captured vars are shared cells, pointer receivers share, "
+             "string/byte conversions round-trip). Tied to the code by regenerated canonical text and tables (rfl), by "
              "structural correspondences (the models' outputs equal the trees the real goose emits on random control-flow skeletons, scoping programs, "
-             "Core, heap and collection programs, rejections and messages included; values agree with native Go and with the interpreter) and by an end-to-end differential: generated packages run natively and through the real goose plus the Lean "
+             "Core, heap, collection and function programs, rejections and messages included; values agree with native Go and with the interpreter) and by an end-to-end differential: generated packages run natively and through the real goose plus the Lean "
              "reference interpreter (calibrated on every run against the repository's own semantics suite).",
         ref="DESIGN.md §6 C01",
         note="Proved: control flow, arithmetic, scoping, their composition with loops (Model/Core) and the heap fragment without append, maps, loops "
-             "(Model/Heap) and collections (Model/Coll), each over a model of the corresponding translator functions whose output is compared with the real goose's on every run. "
-             "Sampled, not proved: closures, strings, encoders, methods, multiple results, and the composition of the Core, Heap and Coll models - covered by the differential only (partial). Trusted: GL/Sem.lean as the meaning of the emitted "
+             "(Model/Heap), collections (Model/Coll) and functions (Model/Fun), each over a model of the corresponding translator functions whose output is compared with the real goose's on every run. "
+             "Sampled, not proved: the composition of the Core, Heap, Coll and Fun models, encoders inside translated code, interfaces, generics - covered by the differential only (partial). Trusted: GL/Sem.lean as the meaning of the emitted "
              "text (reconstruction of Perennial's GooseLang, K3-calibrated), GL/Lex+Parse, the Go toolchain as the meaning of Go. Known findings "
              "(known_findings.jsonl): loop-variable scope, named-integer conversions, narrow ++/--, untyped constant operands, evaluation order, "
              "per-iteration loop variables, empty make is nil, reads of a nil map.",
